@@ -149,6 +149,9 @@ C01_THEOREMS = ["Acv.C01.compile_correct", "Acv.C01.dispatch_nonempty", "Acv.C01
                 "Acv.C01.ite_as_implications", "Acv.C01.cond_as_or", "Acv.C01.nested_is_forall",
                 "Acv.C01.atLeast_counts", "Acv.C01.atMost_counts", "Acv.C01.graphEnv_classical",
                 "Acv.C01.reported_iff", "Acv.C01.old_negated_ite_wrong", "Acv.C01.improper_misjudged"]
+C01_ATOM_THEOREMS = ["Acv.C01.in_classical", "Acv.C01.numeric_classical", "Acv.C01.datatype_classical", "Acv.C01.length_classical",
+                     "Acv.C01.pattern_classical", "Acv.C01.containsAll_classical", "Acv.C01.containsSome_classical",
+                     "Acv.C01.propCmp_classical", "Acv.C01.uniqueValues_classical", "Acv.C01.in_not_classical_on_two_values"]
 
 
 def cmp_c01(case, i, m):
@@ -179,7 +182,7 @@ def check_C01(ctx):
         build_harness()
     except Broken as b:
         return conclude(ctx, [b])
-    broken += prove(ctx, "Acv.Props.C01", C01_THEOREMS)
+    broken += prove(ctx, "Acv.Props.C01Atoms", C01_THEOREMS + C01_ATOM_THEOREMS)
     q = ctx.quick()
     plan = [("tt", 260 if q else 6000), ("graphcount", 120 if q else 3000), ("atoms", 120 if q else 3000), ("graph", 100 if q else 3000)]
     try:
